@@ -341,7 +341,7 @@ impl Gen<'_> {
     }
 
     fn module(&mut self, path: &str, depth: u32) {
-        let n_fns = self.rng.below(if depth == 0 { 4 } else { 5 }) as usize;
+        let n_fns = if self.rng.chance(1, 12) { 6 + self.rng.below(8) as usize } else { self.rng.below(if depth == 0 { 4 } else { 5 }) as usize };
         let mut fns: Vec<&str> = Vec::new();
         for _ in 0..n_fns {
             let f = *self.rng.pick(FN_NAMES);
@@ -421,7 +421,8 @@ impl Gen<'_> {
             }
         }
         if depth < 3 {
-            let n_mods = self.rng.below(if depth == 0 { 4 } else { 3 }) as usize;
+            // occasionally a wide module level
+            let n_mods = if self.rng.chance(1, 12) { 6 + self.rng.below(6) as usize } else { self.rng.below(if depth == 0 { 4 } else { 3 }) as usize };
             let mut mods: Vec<&str> = Vec::new();
             for _ in 0..n_mods {
                 let m = *self.rng.pick(MOD_NAMES);
